@@ -57,14 +57,14 @@ def run(P, rep, tier):
         "restrictions are 'soft': access through __wrapped__ or private _self_* fields is outside the property",
     ]
     ctx = Ctx(P)
-    r1_navigation(P, rep, ctx)
-    r1_child_kwargs(P, rep, ctx)
-    r1_wrap_if_node(P, rep, ctx)
-    r1_query(P, rep, ctx)
-    r2_monotone(P, rep, ctx)
-    r3_read_only(P, rep, ctx)
-    r4_skel_only(P, rep, ctx)
-    r5_local_only(P, rep, ctx)
+    rep.attempt(r1_navigation, P, rep, ctx)
+    rep.attempt(r1_child_kwargs, P, rep, ctx)
+    rep.attempt(r1_wrap_if_node, P, rep, ctx)
+    rep.attempt(r1_query, P, rep, ctx)
+    rep.attempt(r2_monotone, P, rep, ctx)
+    rep.attempt(r3_read_only, P, rep, ctx)
+    rep.attempt(r4_skel_only, P, rep, ctx)
+    rep.attempt(r5_local_only, P, rep, ctx)
     rep.floor("C15.R1", 40, "handed-out values")
     rep.floor("C15.R3", 18)
     rep.floor("C15.R4", 6)
